@@ -34,7 +34,7 @@ CLAIMED = {
         "Tearfree Sketchy _update_axis and OCO _fd_update_fn are run over generated histories with "
         "every SVD captured; chk_history (vm_compute on exact dyadics) checks per step the factor "
         "handed to the SVD, the oracle answer, the recurrence and - with the verified PSD checker "
-        "(psd_check_rounded_sound) - the bracket of the implementation's own state against the exact covariance.",
+        "(psd_check_rounded_sound) - the bracket of the implementation's own state against the exact covariance. Escaped-mass budget (k+1) t <= tr C - sum l proved at trace level (C09/Budget.v) and evaluated on optimizer states; rank-3 gradient tensors with the sketched axis first / middle / last.",
         "Trusted: Coq kernel + vm_compute; no axioms. Oracles (SVD/QR) enter as hypotheses (svd_spec) "
         "and are monitored per call to 2^-17 (f32) / 2^-40 (f64) relative; float rounding of the "
         "implementations is absorbed by these tolerances (not verified). 'rank<=k => zero cut-off' is "
@@ -53,7 +53,7 @@ CLAIMED = {
         "time the same identity is decided by a certificate. The OGD and AdaGrad update functions are "
         "TRANSLATED from source on every run (C16/Ref.v + GenEq obligations) and proved to act "
         "coordinatewise as the model steps of the closed-form theorems. Tie: generate_init_update under x64 for "
-        "all six algorithms; chk_ogd / chk_ada / chk_oco / chk_full evaluated in Coq on exact dyadics.",
+        "all six algorithms; chk_ogd / chk_ada / chk_oco / chk_full evaluated in Coq on exact dyadics. The training driver precondition/oco/train.py is probed against the update function applied row by row.",
         "Trusted: Coq kernel + vm_compute; no axioms. rsqrt/reciprocal/sqrt/SVD are oracles (values "
         "checked against their specs to 2^-40 before use). Uniqueness of the PSD inverse square root is "
         "not proved (full-matrix AdaGrad enters through a certified root). 'rank below sketch size => "
@@ -73,7 +73,7 @@ CLAIMED = {
         "recorded under disable_jit and sampled transitions / every guard decision are checked "
         "against the translated functions evaluated exactly; for every returned root with error < 0.1, root_cert computes "
         "X^p(A+dI)-I exactly (zero padding, symmetry, residual <= err+slack) and maxev_ok certifies the "
-        "eigenvalue estimate against a PSD-certified bound (verified LDL^T checker).",
+        "eigenvalue estimate against a PSD-certified bound (verified LDL^T checker). LOBPCG-deflated Newton cases are certified by the same root_cert against the original matrix + ridge.",
         "Trusted: Coq kernel + vm_compute; no axioms. NOT verified: float rounding of the iteration and "
         "of eigh - the slack 2^-23 err + 2^-23 d max|X^p| + 64 n p u kappa_reg is an assumption "
         "(constant frozen after calibration). LOBPCG-deflated variant not exercised. The eigh residual "
@@ -130,7 +130,7 @@ CLAIMED = {
         "accumulators never decrease in reachable states (refuted for an unreachable one); rank-1 SM3 "
         "is diagonal AdaGrad/RMSProp; per-coordinate step <= AdaGrad's. The list-backed step executed by "
         "the check is proved equal to the model step. Tie: sm3.sm3 through the public API, accumulators "
-        "and updates compared exactly (4-bit integer gradients, beta2 in {1,1/2}) or within 2^-17.",
+        "and updates compared exactly (4-bit integer gradients, beta2 in {1,1/2}) or within 2^-17. sm3._moving_averages is translated from source (GenEq) and proved equal to the model; a long-history probe (float32 / bfloat16, float64 reference) runs on the implementation.",
         "Trusted: Coq kernel + vm_compute; no axioms; sqrt in the update is compared in squared form.",
         "DESIGN.md 7/C12"),
     "C17": (
@@ -157,7 +157,7 @@ CLAIMED = {
         "preconditioners, merge back, graft, weight decay, momenta, Nesterov, lr) uses C06.Ref for all "
         "shape logic. Tie: for every (configuration, step, leaf) Coq recomputes statistics, update "
         "and next state from the implementation's own previous state, and certifies every refreshed "
-        "preconditioner as inverse p-th root of the new statistics (C01 root_cert).",
+        "preconditioner as inverse p-th root of the new statistics (C01 root_cert). A few trees per run are also run under jax.pmap on 2 devices and compared replica by replica with the plain run.",
         "Trusted: Coq kernel + vm_compute; no axioms; translator for C06.Ref. The model itself is "
         "hand-written and tied by sampled correspondence (110 configurations quick); float32 rounding "
         "absorbed by tolerance 2^-17 scaled by the preconditioner chain's amplification factor; matrix "
